@@ -314,7 +314,39 @@ func watermarkWindowGroup(c *Ctx, rule string) {
 			}
 		}
 	}
-	filterOK := len(ops) == 0 || (len(ops) == 1 && ops[0] == "<")
+	// the filter, decided by order-sign evaluation (shape and polarity independent): the slot copy
+	// (the Store into the new slots) must stay reachable when idx == newBase and when idx > newBase
+	filterOK := true
+	var copies []ssa.Instruction
+	for _, st := range Calls(fn, false, Named("(*sync/atomic.Int32).Store")) {
+		copies = append(copies, st.(ssa.Instruction))
+	}
+	if len(copies) > 0 {
+		role := func(v ssa.Value) string {
+			switch {
+			case isAddOf(v, "base"):
+				return "idx"
+			case isDonePlusOne(v):
+				return "newBase"
+			}
+			return ""
+		}
+		for _, sg := range []int{0, 1} {
+			env := &SignEnv{Depth: 1, Role: role, Signs: map[string]int{"idx:newBase": sg}}
+			reach := false
+			for _, cp := range copies {
+				if env.Reaches(fn, cp) {
+					reach = true
+				}
+			}
+			if !reach {
+				filterOK = false
+				ops = append(ops, map[int]string{0: "drops idx==newBase", 1: "drops idx>newBase"}[sg])
+			}
+		}
+	} else {
+		filterOK = false
+	}
 	c.Decide(filterOK && startKnown && startK <= 0, rule, key(fn, "drop-only:idx<newBase"), fn.Pos(), len(ops)+2, "the carry-over loop reaches the slot of index newBase and drops only indices strictly below the new base", fmt.Sprintf("the window rebuild does not carry over index newBase = doneUntil+1 (filter `idx %v newBase`, first visited slot (newBase-base)%+d, start derivable: %v): the pending mark of the oldest unfinished index is lost and doneUntil advances past it", ops, startK, startKnown))
 	// newBase = DoneUntil()+1
 	nb := false
@@ -394,6 +426,21 @@ func watermarkWindowGroup(c *Ctx, rule string) {
 			switch x := plus.(type) {
 			case *ssa.Parameter:
 				okIdx = x.Name() == "index"
+			case *ssa.Call:
+				// index = max(index, newBase)
+				if bi, ok := x.Call.Value.(*ssa.Builtin); ok && bi.Name() == "max" {
+					okIdx = true
+					hasParam := false
+					for _, a := range x.Call.Args {
+						a = Unwrap(a)
+						if p, ok := a.(*ssa.Parameter); ok && p.Name() == "index" {
+							hasParam = true
+						} else if a != baseVal {
+							okIdx = false
+						}
+					}
+					okIdx = okIdx && hasParam
+				}
 			case *ssa.Phi:
 				okIdx = true
 				hasParam := false
